@@ -362,6 +362,30 @@ func TestZZVWindowRandom(t *testing.T) {
 			fs = append(fs, "GetWindowInfo")
 		}
 		rec["t_ns"], rec["real"], rec["oracle_next"], rec["oracle_in"] = tt, r, o.next, o.in
+		// the same live calculator and agent asked about an EARLIER / later instant next (inside the previous window,
+		// one cycle back, one cycle ahead), then about the first instant again: answers must not depend on the history
+		if len(fs) == 0 {
+			t2 := []int64{o.next[0] - c + w/2, o.next[0] - c, tt - c, tt + c, o.next[0] + w + 1}[rng.Intn(5)]
+			for qi, tq := range []int64{t2, tt} {
+				oq := zzvWOracleOf(c, w, tol, off, tq)
+				rq := zzvWEval(calc, id, epoch, epoch.Add(time.Duration(tq)))
+				fresh := zzvWEval(NewWindowCalculator(calc.GetConfig()), id, epoch, epoch.Add(time.Duration(tq)))
+				evals++
+				wrong := !zzvHasI(oq.next, rq.Next) || !zzvHasB(oq.in, rq.In) || !zzvHasI(oq.prev, rq.Prev) || !zzvHasI(oq.until, rq.Until)
+				freshWrong := !zzvHasI(oq.next, fresh.Next) || !zzvHasB(oq.in, fresh.In) || !zzvHasI(oq.prev, fresh.Prev) || !zzvHasI(oq.until, fresh.Until)
+				if wrong && !freshWrong {
+					bad++
+					badKeys["history-dependent"]++
+					if badKeys["history-dependent"] <= 2 {
+						zzvEmit("bad", map[string]any{"i": i, "cycle_ns": c, "window_ns": w, "tolerance_ns": tol, "offset_ns": off, "agent": id.String(),
+							"epoch": epoch.Format(time.RFC3339), "t_ns": tq, "real": rq, "oracle_next": oq.next, "oracle_in": oq.in,
+							"funcs": []string{"NextWindow"}, "class": "history-dependent", "history_dependent": true,
+							"asked_before_on_the_same_calculator": []int64{tt, t2}[:qi+1]})
+					}
+					break
+				}
+			}
+		}
 		if len(fs) > 0 {
 			bad++
 			cls := "random:" + rel + "-epoch"
@@ -386,4 +410,161 @@ func TestZZVWindowRandom(t *testing.T) {
 		}
 	}
 	zzvEmit("summary", map[string]any{"evaluations": evals, "bad": bad, "bad_classes": badKeys, "classes": len(classes), "samples": samples})
+}
+
+// ---- query SEQUENCES on one live calculator (spec/WindowSeq.tla) ----------------------------------------------
+//
+// The calculator is a pure function of (identity, instant): an answer must not depend on what the same live
+// calculator was asked before.  For every configuration of the grid ONE calculator is created and asked about
+// every ordered pair of instants (same agent, and alternating with a second agent of another offset), all triples
+// for short cycles and seeded random triples otherwise; every answer is judged by the oracle of ITS instant.
+
+// zzvWJudgeVec compares one real evaluation with a grid vector; returns the wrong functions and the class.
+func zzvWJudgeVec(v *zzvWVec, r zzvWReal, unit int64) (fs []string, cls string, asDev bool) {
+	if r.Next%unit != 0 || !zzvHasI(v.ONext, r.Next/unit) {
+		fs = append(fs, "NextWindow")
+	}
+	if !zzvHasB(v.OIn, r.In) {
+		fs = append(fs, "IsInWindow")
+	}
+	if r.Prev%unit != 0 || !zzvHasI(v.OPrev, r.Prev/unit) {
+		fs = append(fs, "PreviousWindow")
+	}
+	if r.Until%unit != 0 || !zzvHasI(v.OUntil, r.Until/unit) {
+		fs = append(fs, "TimeUntilWindow")
+	}
+	if r.Incons != "" {
+		fs = append(fs, "GetWindowInfo")
+	}
+	if len(fs) == 0 {
+		return nil, "", false
+	}
+	cls = "other"
+	for _, d := range []string{"DevTruncDiv", "DevNoTrailingTolerance"} {
+		x, ok := v.Dev[d]
+		if ok && r.Next == x.Next*unit && r.In == x.In && r.Prev == x.Prev*unit && r.Until == x.Until*unit && r.Incons == "" {
+			asDev = true
+			if d == "DevTruncDiv" {
+				cls = d + ":before-epoch"
+			} else {
+				cls = d + ":trailing-tolerance"
+			}
+			break
+		}
+	}
+	return fs, cls, asDev
+}
+
+func TestZZVWindowSeq(t *testing.T) {
+	var in struct {
+		Vecs []zzvWVec `json:"vecs"`
+	}
+	zzvLoad(t, "ZZV_IN", &in)
+	ntriples := zzvEnvInt("ZZV_TRIPLES", 300)
+	rng := mrand.New(mrand.NewSource(zzvSeed()))
+	const unit = int64(time.Second)
+	type gkey struct{ c, w, tol, off int64 }
+	groups := map[gkey]map[int64]*zzvWVec{}
+	var order []gkey
+	for i := range in.Vecs {
+		v := &in.Vecs[i]
+		k := gkey{v.C, v.W, v.Tol, v.Off}
+		if groups[k] == nil {
+			groups[k] = map[int64]*zzvWVec{}
+			order = append(order, k)
+		}
+		groups[k][v.T] = v
+	}
+	queries, seqs, bad := 0, 0, 0
+	badKeys := map[string]int{}
+	classes := map[string]bool{}
+	var samples []map[string]any
+	for gi, k := range order {
+		epoch := zzvEpochs[gi%len(zzvEpochs)]
+		cfg := WindowConfig{CycleLength: time.Duration(k.c * unit), WindowLength: time.Duration(k.w * unit),
+			ClockTolerance: time.Duration(k.tol * unit), Epoch: epoch}
+		live := NewWindowCalculator(cfg) // the one calculator all sequences of this configuration go through
+		// agent 0 has this group's offset, agent 1 another offset of the same configuration (if there is one)
+		k2 := gkey{k.c, k.w, k.tol, (k.off + 1) % (k.c - k.w)}
+		vecs := [2]map[int64]*zzvWVec{groups[k], groups[k2]}
+		ids := [2]identity.AgentID{zzvAgentWithSeed(rng, uint64(k.off*unit)), zzvAgentWithSeed(rng, uint64(k2.off*unit))}
+		if live.windowOffset(ids[0]) != time.Duration(k.off*unit) || live.windowOffset(ids[1]) != time.Duration(k2.off*unit) {
+			t.Fatalf("zzv: cannot craft identifiers for the offsets: the offset derivation changed")
+		}
+		var ts []int64
+		for tt := range groups[k] {
+			ts = append(ts, tt)
+		}
+		// answers of a FRESH calculator, to tell "wrong for this instant anyway" from "wrong because of the history"
+		freshOK := func(b int, tt int64) bool {
+			fs, _, _ := zzvWJudgeVec(vecs[b][tt], zzvWEval(NewWindowCalculator(cfg), ids[b], epoch, epoch.Add(time.Duration(tt*unit))), unit)
+			return len(fs) == 0
+		}
+		ask := func(seq [][2]int64, pos int) {
+			b, tt := int(seq[pos][0]), seq[pos][1]
+			v := vecs[b][tt]
+			r := zzvWEval(live, ids[b], epoch, epoch.Add(time.Duration(tt*unit)))
+			queries++
+			fs, cls, asDev := zzvWJudgeVec(v, r, unit)
+			if len(fs) == 0 {
+				return
+			}
+			hist := false
+			if freshOK(b, tt) {
+				cls, hist = "history-dependent", true
+			}
+			bad++
+			key := fmt.Sprintf("%v/%s", fs, cls)
+			badKeys[key]++
+			if badKeys[key] <= 2 {
+				var asked []map[string]any
+				for _, q := range seq[:pos+1] {
+					asked = append(asked, map[string]any{"agent": q[0], "t_s": q[1]})
+				}
+				zzvEmit("bad", map[string]any{"cycle_s": v.C, "window_s": v.W, "tolerance_s": v.Tol, "offset_s": v.Off, "t_s": v.T,
+					"epoch": epoch.Format(time.RFC3339), "real": r, "oracle_next": v.ONext, "oracle_in": v.OIn, "funcs": fs, "class": cls,
+					"as_dev": asDev, "history_dependent": hist, "asked_before_on_the_same_calculator": asked})
+			}
+		}
+		run := func(seq [][2]int64) {
+			seqs++
+			for p := range seq {
+				ask(seq, p)
+			}
+			classes[fmt.Sprintf("len%d/agents%v", len(seq), func() (s string) {
+				for _, q := range seq {
+					s += fmt.Sprint(q[0])
+				}
+				return
+			}())] = true
+		}
+		for _, t1 := range ts {
+			for _, t2 := range ts {
+				run([][2]int64{{0, t1}, {0, t2}})
+				if (t1+t2)%3 == 0 { // alternating agents on a third of the pairs
+					run([][2]int64{{0, t1}, {1, t2}, {0, t1}})
+					run([][2]int64{{1, t1}, {0, t2}})
+				}
+			}
+		}
+		if k.c <= 3 {
+			for _, t1 := range ts {
+				for _, t2 := range ts {
+					for _, t3 := range ts {
+						run([][2]int64{{0, t1}, {0, t2}, {0, t3}})
+					}
+				}
+			}
+		} else {
+			for i := 0; i < ntriples; i++ {
+				run([][2]int64{{int64(rng.Intn(2)), ts[rng.Intn(len(ts))]}, {int64(rng.Intn(2)), ts[rng.Intn(len(ts))]}, {int64(rng.Intn(2)), ts[rng.Intn(len(ts))]}})
+			}
+		}
+		if len(samples) < 3 && gi%37 == 5 {
+			samples = append(samples, map[string]any{"cycle_s": k.c, "window_s": k.w, "tolerance_s": k.tol, "offset_s": k.off,
+				"second_agent_offset_s": k2.off, "sequence_example": []map[string]any{{"agent": 0, "t_s": ts[len(ts)-1]}, {"agent": 0, "t_s": ts[0]}}})
+		}
+	}
+	zzvEmit("summary", map[string]any{"calculators": len(order), "sequences": seqs, "queries": queries, "bad": bad, "bad_classes": badKeys,
+		"classes": len(classes), "samples": samples})
 }
